@@ -38,13 +38,15 @@ def crlfAux (prevCR : Bool) : List Char → List Char
 /-- replace every `'\n'` that is not already preceded by `'\r'` with `"\r\n"` -/
 def crlf (s : List Char) : List Char := crlfAux false s
 
-/-- no `'\r'` that is not followed by `'\n'` -/
+/-- no `'\r'` that is not followed by `'\n'` (not needed by the lexer law, see `lexFrom_crlf`) -/
 def noLoneCR : List Char → Bool
   | [] => true
   | c :: t => (c != '\r' || t.head? == some '\n') && noLoneCR t
 
-/-- the inputs of the CRLF law: no backslash, no lone carriage return -/
-def CrlfSafe (s : List Char) : Prop := '\\' ∉ s ∧ noLoneCR s = true
+/-- the inputs of the CRLF law: no backslash (an escape would take the LF before, the CR after
+    the conversion).  A lone CR needs not be excluded at the level of the lexer: it starts a
+    word (or is a punctuation token) before and after, and the conversion does not touch it. -/
+def CrlfSafe (s : List Char) : Prop := '\\' ∉ s
 
 instance (s : List Char) : Decidable (CrlfSafe s) := by unfold CrlfSafe; infer_instance
 
@@ -110,6 +112,12 @@ theorem crlf_head? (s : List Char) : (crlf s).head? = s.head?.map (fun c => if c
   cases s with
   | nil => rfl
   | cons c t => by_cases h : c = '\n' <;> simp [crlf, crlfAux, h]
+
+theorem crlf_head?_ne_lf (s : List Char) : (crlf s).head? ≠ some '\n' := by
+  rw [crlf_head?]
+  cases s with
+  | nil => simp
+  | cons c t => by_cases h : c = '\n' <;> simp [h]
 
 theorem crlf_head?_eq {s : List Char} {x : Char} (h1 : x ≠ '\r') :
     (crlf s).head? = some x ↔ s.head? = some x ∧ x ≠ '\n' := by
@@ -236,13 +244,14 @@ theorem lexlaws_dropWhile_head (p : Char → Bool) (r : List Char) (x : Char) (t
     · simp [hp] at h; rw [← h.1]; simpa using hp
 
 theorem lexOne_crlf_step (cs : CharSpec) (hcs : CrlfSpec cs) (c : Char) (rest : List Char)
-    (h1 : c ≠ '\\') (h2 : c ≠ '\n') (h3 : c ≠ '\r') :
+    (h1 : c ≠ '\\') (h2 : c ≠ '\n') (h3 : ¬ (c = '\r' ∧ rest.head? = some '\n')) :
     (lexOne cs c (crlf rest)).1 = (lexOne cs c rest).1 ∧
     (crlfVolatile (lexOne cs c rest).1 = false →
       (crlf rest).take (lexOne cs c (crlf rest)).2 = rest.take (lexOne cs c rest).2) ∧
     ((crlf rest).drop (lexOne cs c (crlf rest)).2 = crlf (rest.drop (lexOne cs c rest).2) ∨
       ∃ t, rest.drop (lexOne cs c rest).2 = '\n' :: t ∧
         (crlf rest).drop (lexOne cs c (crlf rest)).2 = '\n' :: crlf t) := by
+  have h3' : ¬ (c = '\r' ∧ (crlf rest).head? = some '\n') := fun h => crlf_head?_ne_lf rest h.2
   have hgt : (crlf rest).head? = some '>' ↔ rest.head? = some '>' := by
     rw [crlf_head?_eq (by decide)]; simp
   have hmi : (crlf rest).head? = some '-' ↔ rest.head? = some '-' := by
@@ -297,40 +306,24 @@ theorem lexOne_crlf_step (cs : CharSpec) (hcs : CrlfSpec cs) (c : Char) (rest : 
   have hw := crlf_tw cs.ws hcs.ws_cr hcs.ws_lf rest
   have hwc := crlf_tw cs.wordChar hcs.word_cr hcs.word_lf rest
   by_cases c4 : isAsciiDigit c
-  · simp [lexOne, h1, h2, h3, c1, c2, c3, c3', c4, crlfVolatile, hd]
+  · simp [lexOne, h1, h2, h3, h3', c1, c2, c3, c3', c4, crlfVolatile, hd]
   cases hs : singleKind c with
-  | some k => simp [lexOne, h1, h2, h3, c1, c2, c3, c3', c4, hs]
+  | some k => simp [lexOne, h1, h2, h3, h3', c1, c2, c3, c3', c4, hs]
   | none =>
     by_cases c5 : cs.ws c
-    · simp [lexOne, h1, h2, h3, c1, c2, c3, c3', c4, hs, c5, crlfVolatile, hw]
+    · simp [lexOne, h1, h2, h3, h3', c1, c2, c3, c3', c4, hs, c5, crlfVolatile, hw]
     · by_cases c6 : cs.punct c
-      · simp [lexOne, h1, h2, h3, c1, c2, c3, c3', c4, hs, c5, c6]
-      · simp [lexOne, h1, h2, h3, c1, c2, c3, c3', c4, hs, c5, c6, crlfVolatile, hwc]
+      · simp [lexOne, h1, h2, h3, h3', c1, c2, c3, c3', c4, hs, c5, c6]
+      · simp [lexOne, h1, h2, h3, h3', c1, c2, c3, c3', c4, hs, c5, c6, crlfVolatile, hwc]
 
-theorem CrlfSafe.tail {c : Char} {t : List Char} (h : CrlfSafe (c :: t)) : CrlfSafe t := by
-  obtain ⟨h1, h2⟩ := h
-  simp only [noLoneCR, Bool.and_eq_true] at h2
-  exact ⟨fun hm => h1 (List.mem_cons_of_mem _ hm), h2.2⟩
+theorem CrlfSafe.tail {c : Char} {t : List Char} (h : CrlfSafe (c :: t)) : CrlfSafe t :=
+  fun hm => h (List.mem_cons_of_mem _ hm)
 
-theorem CrlfSafe.drop {s : List Char} (h : CrlfSafe s) (n : Nat) : CrlfSafe (s.drop n) := by
-  induction n generalizing s with
-  | zero => simpa using h
-  | succ n ih =>
-    cases s with
-    | nil => simpa using h
-    | cons c t => simpa using ih h.tail
+theorem CrlfSafe.drop {s : List Char} (h : CrlfSafe s) (n : Nat) : CrlfSafe (s.drop n) :=
+  fun hm => h (List.mem_of_mem_drop hm)
 
 theorem CrlfSafe.head_ne {c : Char} {t : List Char} (h : CrlfSafe (c :: t)) : c ≠ '\\' := by
-  intro hc; exact h.1 (by simp [hc])
-
-theorem CrlfSafe.cr {t : List Char} (h : CrlfSafe ('\r' :: t)) : ∃ u, t = '\n' :: u := by
-  obtain ⟨_, h2⟩ := h
-  simp only [noLoneCR, Bool.and_eq_true] at h2
-  cases t with
-  | nil => simp at h2
-  | cons d u =>
-    have : d = '\n' := by simpa using h2.1
-    exact ⟨u, by rw [this]⟩
+  intro hc; exact h (by simp [hc])
 
 /-- CRLF conversion changes neither the kinds of the tokens nor the texts of the tokens other
     than newlines and comments (whatever the start offsets are). -/
@@ -356,15 +349,18 @@ theorem lexFrom_crlf (cs : CharSpec) (hcs : CrlfSpec cs) (s : List Char) (hs : C
           rw [crlf_lf, lexFrom_cons, lexFrom_cons]
           simp only [lexOne_lf, lexOne_crlf, List.map_cons, List.drop_succ_cons, List.drop_zero]
           exact lexlaws_cons_congr (by simp [tokAbs, crlfVolatile]) (ih rest (by omega) hs.tail _ _)
-        by_cases h3 : c = '\r'
-        · subst h3
-          obtain ⟨u, rfl⟩ := hs.cr
+        by_cases h3 : c = '\r' ∧ rest.head? = some '\n'
+        · obtain ⟨rfl, h4⟩ := h3
+          obtain ⟨u, rfl⟩ : ∃ u, rest = '\n' :: u := by
+            cases rest with
+            | nil => simp at h4
+            | cons d u => exact ⟨u, by simp at h4; rw [h4]⟩
           simp only [List.length_cons] at hl
           rw [crlf_crlf, lexFrom_cons, lexFrom_cons]
           simp only [lexOne_crlf, List.map_cons, List.drop_succ_cons, List.drop_zero]
           exact lexlaws_cons_congr (by simp [tokAbs, crlfVolatile]) (ih u (by omega) hs.tail.tail _ _)
         · have h1 := hs.head_ne
-          rw [crlf_other c rest h2 (fun h => h3 h.1), lexFrom_cons, lexFrom_cons]
+          rw [crlf_other c rest h2 h3, lexFrom_cons, lexFrom_cons]
           obtain ⟨hk, htxt, hrest⟩ := lexOne_crlf_step cs hcs c rest h1 h2 h3
           have hle := lexOne_le cs c rest
           simp only [List.map_cons]
@@ -393,5 +389,36 @@ theorem lexFrom_crlf (cs : CharSpec) (hcs : CrlfSpec cs) (s : List Char) (hs : C
 
 theorem lex_crlf (cs : CharSpec) (hcs : CrlfSpec cs) (s : List Char) (hs : CrlfSafe s) :
     (lex cs (crlf s)).map tokAbs = (lex cs s).map tokAbs := lexFrom_crlf cs hcs s hs 0 0
+
+/-- the visible text of a token, from what CRLF conversion preserves of it -/
+def visAbs (a : TK × List Char) : List Char :=
+  match a.1 with
+  | .newline => [' ']
+  | .lineComment | .blockComment => []
+  | .escaped => a.2.tail
+  | _ => a.2
+
+theorem vis_eq_visAbs (t : Tok) (h : t.text ≠ []) : vis t = visAbs (tokAbs t) := by
+  unfold vis visAbs tokAbs
+  cases hk : t.kind <;> simp [crlfVolatile, h]
+
+theorem lexFrom_map_vis (cs : CharSpec) (off : Nat) (s : List Char) :
+    (lexFrom cs off s).map vis = ((lexFrom cs off s).map tokAbs).map visAbs := by
+  rw [List.map_map]
+  apply List.map_congr_left
+  intro t ht
+  exact vis_eq_visAbs t (lexFrom_nonempty cs off s t ht)
+
+/-- token by token, the visible text is the same after CRLF conversion -/
+theorem lex_crlf_vis (cs : CharSpec) (hcs : CrlfSpec cs) (s : List Char) (hs : CrlfSafe s) :
+    (lex cs (crlf s)).map vis = (lex cs s).map vis := by
+  unfold lex
+  rw [lexFrom_map_vis, lexFrom_map_vis, lexFrom_crlf cs hcs s hs 0 0]
+
+/-- every run (tokens `i … i+j-1`) has the same visible text after CRLF conversion -/
+theorem lex_crlf_run_vis (cs : CharSpec) (hcs : CrlfSpec cs) (s : List Char) (hs : CrlfSafe s) (i j : Nat) :
+    (((lex cs (crlf s)).drop i).take j).flatMap vis = (((lex cs s).drop i).take j).flatMap vis := by
+  rw [List.flatMap_def, List.flatMap_def, List.map_take, List.map_take, List.map_drop, List.map_drop,
+    lex_crlf_vis cs hcs s hs]
 
 end Cook
